@@ -718,6 +718,19 @@ def atoms_of(s):
     raise Unsupported('not a string: %r' % (s,))
 
 
+class UStr:
+    """A string value known only as an uninterpreted term of sort PyStr (result of an uninterpreted str method,
+    text of an abstract method result).  Only its length (an uninterpreted function) and equality are available."""
+    __slots__ = ('term',)
+
+    def __init__(self, term):
+        self.term = term
+
+
+STRSORT = z3.DeclareSort('PyStr')
+USTR_LEN = z3.Function('str.len', STRSORT, IntSort)
+
+
 def is_str(v):
     return isinstance(v, (str, Rope))
 
@@ -725,6 +738,8 @@ def is_str(v):
 def s_len(s):
     if isinstance(s, str):
         return len(s)
+    if isinstance(s, UStr):
+        return atom(USTR_LEN(s.term))
     tot = 0
     for a in s.atoms:
         tot = i_add(tot, _atom_len(a))
